@@ -23,7 +23,7 @@ PENDING = {}
 
 CHECKS = {
  "C01": dict(
-   level=("fault_enumeration", "ONLY the fault-reachable slice of C01: well-formed projects whose input channels (workflow file, local action metadata, local reusable workflow, actionlint.yaml, stdin) and directory operations are hit by seeded disk faults (torn/zeroed/duplicated/swapped/bit-flipped/rewritten content, read errors, stat/getwd/listing errors, stdin errors and short reads), by failing or flooding external tools, and by an output writer that fails from some byte on, at chosen operations of a concurrent run; decided: no panic in any task, no deadlock, termination, exit status in {0,1,3}, status 3 for unreadable inputs. The 'all byte strings' quantifier of the property is input fuzzing and is not decided by this technique.", "DESIGN.md section 4 (C01)"),
+   level=("fault_enumeration", "ONLY the fault-reachable slice of C01: well-formed projects whose input channels (workflow file, local action metadata, local reusable workflow, actionlint.yaml, stdin) and directory operations are hit by seeded disk faults (torn/zeroed/duplicated/swapped/bit-flipped/rewritten content, read errors, stat/getwd/listing errors, stdin errors and short reads), by failing or flooding external tools, and by an output writer and a log writer (stderr) that fail from some byte on, at chosen operations of a concurrent run; decided: no panic in any task, no deadlock, termination, exit status in {0,1,3}, status 3 for unreadable inputs. The 'all byte strings' quantifier of the property is input fuzzing and is not decided by this technique.", "DESIGN.md section 4 (C01)"),
    note="Trusts: virtual disk fault model (Linux errno values, fs.PathError), watchdog for hangs. Not covered: crafted-input crashes that no fault produces (e.g. `timeout-minutes: !!float nan`, CR-only line endings) - see DESIGN.md sections 4 and 9.",
    technique="deterministic simulation with disk/stdin fault injection over seeded worlds and schedules; invariants: no panic/deadlock/hang, exit status rule"),
  "C15": dict(
@@ -48,7 +48,7 @@ CHECKS = {
    technique="deterministic simulation: seeded map-iteration/job-visit order over composed workloads, executable reference model (solo lint), minimised replay"),
  "C18": dict(
    level=("exploration", "Seeded search over needs graphs x map-iteration orders of the rule's node map, resolve loop and job visiting order, executed by the real rule under the simulator's controlled map order; every run is compared with an independent graph reference model (dangling set, has-cycle, validity of the printed cycle) and must terminate. Exploration is the right level: the order dimension is what tests cannot reach, and it is sampled, not enumerated.", "DESIGN.md section 4 (C18)"),
-   note="Trusts: the map-order instrumentation (simgen rewrite of map ranges into simrt.Iter), the reference graph model in harness/prop_c18.go, the workload generator's coverage of graph shapes. Not claimed: exhaustive enumeration up to 5 jobs.",
+   note="Trusts: the map-order instrumentation (simgen rewrite of map ranges into simrt.Iter), the reference graph model in harness/prop_c18.go, the workload generator's coverage of graph shapes. Not claimed: exhaustive enumeration up to 5 jobs (a quarter of the graphs are drawn uniformly from all labelled digraphs over 1-4 jobs; coverage.enumerated_inputs in the evidence says how many of them a run reached).",
    technique="deterministic simulation: seeded map-iteration-order control + reference graph model, seeded search with minimised replay"),
 }
 
